@@ -130,7 +130,7 @@ def check_case(case):
             for per_axis in ((False, True) if one_axis_above else (False,)):
                 _, ref = oracles.closed_form(q0, z, (1.0, 0.5, 1.0, 1.0, 1.0), dom, [0], modes, mp, 0.0, fpm, cx, cy,
                                              tower_cell=(im, jm), per_axis_clamp=per_axis)
-                e = tol.maxabs(ref[0] - flx[0]) / max(tol.maxabs(ref[0]), 1e-300)
+                e = tol.maxabs(ref[0] - flx[0]) / max(tol.maxabs(ref[0]), 1.0 if fpm else tol.maxabs(q0), 1e-300)
                 best = e if best is None else min(best, e)
     if not best <= 1e-11:
         out.bad(f"level-0 flux is not the low-pass of the {'unit cell at the tower' if fpm else 'source'} on the source grid: "
